@@ -36,7 +36,7 @@ def run(ctx):
     names = sorted(ff.FittingFunction._plugins)
     n_eval = 0
     samples = []
-    zs = [0.0, 0.5, 1.0, 2.0, 3.0, 5.0, 5.99, 6.0, 8.0, 10.0] if quick else list(np.round(np.linspace(0, 12, 49), 3)) + [5.99, 6.0]
+    zs = [0.0, 0.1, 0.25, 0.5, 1.0, 2.0, 3.0, 5.0, 5.99, 6.0, 8.0, 10.0] if quick else list(np.round(np.linspace(0, 12, 49), 3)) + [5.99, 6.0]
     with warnings.catch_warnings():
         warnings.simplefilter("ignore")
         np.seterr(all="ignore")
@@ -88,7 +88,7 @@ def run(ctx):
                 # peak bound and single peak (in sigma, default coefficients)
                 pk = float(f.max())
                 if pk > PS_PEAK * (1 + 1e-9):
-                    zkey = "z>=z_hi" if (name == "Watson" and z >= 6) else f"z={z}"
+                    zkey = ("z>=z_hi" if z >= 6 else "0<z<z_hi" if z > 0 else "z=0") if name == "Watson" else f"z={z}"
                     viol(f"{name}/peak-bound/{zkey}", f"{name}: peak {pk:.4g} at sigma={1.686 / nu[int(f.argmax())]:.4g} exceeds the PS peak {PS_PEAK:.4g} at z={z}",
                          {"fit": name, "z": z, "sigma": float(1.686 / nu[int(f.argmax())]), "f": pk})
                 d = np.diff(f)
